@@ -15,7 +15,7 @@ from ..ser_json import cjson
 
 PROP = "C17"
 THEOREMS = ["C17_length_order", "C17_history", "C17_isolation", "C17_isolation_with_aborts", "C17_ends",
-            "C17_sequential_pull", "C17_refusals", "C17_subscribe_exec",
+            "C17_sequential_pull", "C17_refusals", "C17_subscribe_exec", "C17_history_exec",
             "C17_isolation_exec", "C17_tables_stay_sound"]
 AXIOMS_OK = []
 RUN_MODULE = "Run.C17run Exec.ResponseModel Exec.SubscribeModel"
@@ -67,6 +67,9 @@ def corpus():
     out.append(_stream(["ok", "v_raise"], 1, "chan_sync", "sync", [0, 0], 0, ["len", "bool_empty"], "late"))
     out.append(_stream(["ok"], 2, "chan_async", "async", [1], 1, ["bool_false", "eq_true", "nohash", "getattr_none"], "pre"))
     out.append(_stream(["n_null", "ok", "raw_none"], 1, "chan_async", "sync", [0, 1, 0], 0, ["len"], "late"))
+    # histories: a consumer that stops after 1 of 3 events (nothing read ahead) / keeps calling after the end
+    out.append(_history(["ok", "v_raise", "ok"], 1, 1, "sync", "sync", [0, 0, 0], 0))
+    out.append(_history(["ok", "v_raise"], 5, 1, "agen", "async", [0, 1], 1))
     for r in G.REFUSALS:
         out.append(_refusal(r))
     # one ObjectType as query, mutation and subscription root (seed C17-e): query / mutation operations are
@@ -135,6 +138,16 @@ def generate(rng, tier):
         variants = [rng.choice(G.RAW_NAMES + G.FALSY_RAW + ["ok", "v_raise"]) for _ in range(n)]
         cases.append(_stream(variants, rng.choice(sels + [0, 3, 4]), sources[i % 3], "async" if i % 2 else "sync",
                              [rng.choice([0, 0, 1, 2]) for _ in range(n)], rng.choice([0, 1])))
+    # histories: every number of __anext__ calls from 0 to n + 2 on streams of 0..4 (quick) / 0..6 events
+    j = 0
+    for n in range(0, 5 if quick else 7):
+        for pulls in range(0, n + 3):
+            variants = [["ok", "v_raise", "crash_f", "n_null", "raw_none", "many"][(j + i) % 6] for i in range(n)]
+            src = ["agen", "sync", "async", "chan_sync", "chan_async"][j % 5]
+            traits, fill = ((["len", "bool_empty"], ["pre", "late"][j % 2]) if src.startswith("chan") else (None, None))
+            cases.append(_history(variants, pulls, [1, G.SEL_ERR_THEN_ABORT, G.SEL_ECHO][j % 3], src,
+                                  "async" if j % 2 else "sync", [(j + i) % 2 for i in range(n)], j % 2, traits, fill))
+            j += 1
     # source-stream classes: trait combinations x prefilled / late-filled x every length incl. 0
     trait_sets = [[], ["len"], ["bool_empty"], ["bool_false"], ["bool_true", "len"], ["eq_true"], ["eq_raises"],
                   ["nohash"], ["getattr_none"], ["getattr_raises"], ["len", "bool_empty", "eq_true", "getattr_none"],
@@ -373,6 +386,34 @@ async def _run_stream(case):
             await asyncio.sleep(0)
             ch.close()
         feeder = asyncio.ensure_future(feed(holder[0]))
+    if case["kind"] == "history":
+        # a consumer that makes exactly j calls of __anext__ (stops early, or keeps calling after the end)
+        it = stream.__aiter__()
+        answers = []
+        for _ in range(case["pulls"]):
+            try:
+                r = await it.__anext__()
+            except StopAsyncIteration:
+                answers.append("end")
+            except Exception as e:  # noqa
+                answers.append({"raised": type(e).__name__})
+            else:
+                answers.append(_roundtrip(r.response()))
+            for _ in range(case["consumer_delay"]):
+                await asyncio.sleep(0)
+        if feeder is not None:
+            feeder.cancel()
+        odoc = parse(_oracle_text(text))
+        fresh = []
+        for ev in events:
+            try:
+                res = await execute(schema, odoc, initial_value=ev, runtime=AsyncIORuntime())
+            except Exception as e:  # noqa
+                fresh.append({"raised": type(e).__name__})
+            else:
+                fresh.append(_roundtrip(res.response()))
+        return {"answers": answers, "fresh": fresh, "consumed": counter["consumed"],
+                "requests": counter["requests"], "called": counter["called"]}
     observed = []
     results = []
     ended = False
@@ -460,7 +501,7 @@ async def _run_refusal(case):
 
 
 def run_impl(case):
-    if case["kind"] == "stream":
+    if case["kind"] in ("stream", "history"):
         return _loop().run_until_complete(asyncio.wait_for(_run_stream(case), 60))
     return _loop().run_until_complete(asyncio.wait_for(_run_refusal(case), 60))
 
@@ -493,7 +534,20 @@ _CLS = {"ExecutionError": "OExecutionError", "RuntimeError": "ORuntimeError",
         "none": "ONoException"}
 
 
+def _answer(a):
+    if a == "end":
+        return "None"
+    if "raised" in a:
+        return "(Some None)"
+    return "(Some (Some %s))" % cjson(a)
+
+
 def to_coq(case, obs):
+    if case["kind"] == "history":
+        if obs.get("subscribe_raised"):
+            return "(CHistory [] 0 [Some None] 0)"
+        return "(CHistory %s %d %s %d)" % (ser.clist(obs["fresh"], _split), case["pulls"],
+                                           ser.clist(obs["answers"], _answer), obs["consumed"])
     if case["kind"] == "stream":
         return "(CStream %s %s %s %s %d)" % (
             ser.clist(obs["fresh"], _split), ser.clist(obs["observed"], _obs), _trace(obs["trace"]),
@@ -507,6 +561,9 @@ def to_coq(case, obs):
 
 
 def show_expr(case, obs):
+    if case["kind"] == "history":
+        return "match model_history %s (N.to_nat %d) with Some (s, rs) => (rs, ss_consumed s) | None => ([], 0%%nat) end" % (
+            ser.clist(obs.get("fresh", []), _split), case["pulls"])
     if case["kind"] == "stream":
         return "match model_stream %s with Some (s, rs) => (map resp_of rs, ss_trace s) | None => ([], []) end" % (
             ser.clist(obs["fresh"], _split))
@@ -519,6 +576,8 @@ def show_expr(case, obs):
 def nontrivial(case, obs):
     if case["kind"] == "refusal":
         return True
+    if case["kind"] == "history":
+        return len(case["variants"]) >= 1
     return (len(case["variants"]) >= 2 and any(v != "ok" for v in case["variants"])) or \
         any(v.startswith("raw_") for v in case["variants"])
 
@@ -528,6 +587,9 @@ def canonical(case):
 
 
 def classify(case, obs):
+    if case["kind"] == "history":
+        return ("after j calls of __anext__: the first j results, then only end-of-stream; exactly min(j, n) "
+                "source items consumed (no read-ahead)"), None
     if case["kind"] == "refusal":
         return "refused with the documented exception before any event is consumed (%s)" % case["label"], None
     if obs.get("subscribe_raised"):
@@ -543,7 +605,7 @@ def direct_checks(case, obs):
     out = []
     if case["kind"] == "refusal" and obs["cls"].startswith("other:"):
         out.append(("refusal raised an undocumented exception class %s" % obs["cls"], None))
-    if case["kind"] == "stream" and obs.get("subscribe_raised"):
+    if case["kind"] in ("stream", "history") and obs.get("subscribe_raised"):
         out.append(("subscribe() raised for a valid subscription instead of returning the response stream: %s"
                     % obs["subscribe_raised"], None))
     if case["kind"] == "stream" and obs.get("observed_late") != obs.get("observed"):
@@ -572,12 +634,22 @@ def shrink(case, is_bad):
     return cur
 
 
+def _history(variants, pulls, sel, source, flavour, delays, consumer_delay, traits=None, fill=None):
+    c = _stream(variants, sel, source, flavour, delays, consumer_delay, traits, fill)
+    c["kind"], c["pulls"] = "history", pulls
+    return c
+
+
 def extra_evidence(cases, obss):
-    lens, srcs, variants, refusals, traits_seen = {}, {}, {}, {}, {}
+    lens, srcs, variants, refusals, traits_seen, histories = {}, {}, {}, {}, {}, {}
     with_err = 0
     for c, o in zip(cases, obss):
         if c["kind"] == "refusal":
             refusals[o["cls"]] = refusals.get(o["cls"], 0) + 1
+            continue
+        if c["kind"] == "history":
+            histories[(c["pulls"] > len(c["variants"])) - (c["pulls"] < len(c["variants"]))] = \
+                histories.get((c["pulls"] > len(c["variants"])) - (c["pulls"] < len(c["variants"])), 0) + 1
             continue
         n = len(c["variants"])
         lens[n] = lens.get(n, 0) + 1
@@ -591,4 +663,5 @@ def extra_evidence(cases, obss):
     return {"distribution": {"stream_lengths": lens, "source/field-resolver kinds": srcs,
                              "event_variants": variants, "refusal_classes_seen": refusals,
                              "source_stream_classes": traits_seen,
+                             "histories (pulls < / = / > events)": {str(k): v for k, v in histories.items()},
                              "results_with_errors": with_err}}
